@@ -259,6 +259,25 @@ pub unsafe fn block_popcount_avx2(block: &[u64]) -> usize {
     }
 }
 
+/// Verification hook: AVX2 block popcount over the first [`BLOCK`] words, or
+/// `None` when the host has no AVX2 or `block` is shorter than [`BLOCK`].
+///
+/// Compiled only under `--cfg succinctly_verif`; not part of the public API.
+#[cfg(all(
+    succinctly_verif,
+    target_arch = "x86_64",
+    any(feature = "std", test)
+))]
+#[doc(hidden)]
+pub fn verif_block_popcount_avx2(block: &[u64]) -> Option<usize> {
+    if block.len() >= BLOCK && std::arch::is_x86_feature_detected!("avx2") {
+        // SAFETY: AVX2 availability and the BLOCK-word length checked above.
+        Some(unsafe { block_popcount_avx2(block) })
+    } else {
+        None
+    }
+}
+
 /// Reference implementation: the per-word loop every call site used before.
 ///
 /// Retained as the benchmark baseline and as the oracle the property tests
